@@ -12,6 +12,12 @@ IFNAME = {"E0": "Ethernet0", "E1": "Ethernet1", "E2": "Ethernet2", "E3": "Ethern
 RIFNAME = {v: k for k, v in IFNAME.items()}
 IFADDR = {"E0": "10.0.0.1", "E1": "10.0.1.1", "E2": "10.0.2.1", "E3": "10.0.3.1"}
 LOGS = {"": "", "log": " log", "log-input": " log-input"}
+PEER = {"p1": "10.9.9.1", "p2": "10.9.9.2", "p3": "10.9.9.3"}
+RPEER = {v: k for k, v in PEER.items()}
+
+
+def cm_key(name, seq):
+    return "%s %d" % (name, seq)
 
 
 def term(t):
@@ -53,6 +59,18 @@ def render(cfg, dev):
         out.append("ip access-list extended " + n)
         for i, ace in enumerate(cfg["acls"][n]):
             out.append(" %s%s" % (("%d " % (10 * (i + 1))) if xe else "", ace_text(ace, dev)))
+    cms = cfg.get("cmaps", {})
+    for k in sorted(cms, key=lambda k: (cms[k]["name"], cms[k]["seq"])):
+        e = cms[k]
+        out.append("crypto map %s %d ipsec-isakmp" % (e["name"], e["seq"]))
+        if dev and not e["peers"]:
+            out.append(" ! Incomplete")
+        for pe in sorted(e["peers"]):
+            out.append(" set peer " + PEER[pe])
+        if e["fin"]:
+            out.append(" set ip access-group %s in" % e["fin"])
+        if e["fout"]:
+            out.append(" set ip access-group %s out" % e["fout"])
     for i in sorted(cfg["intfs"]):
         f = cfg["intfs"][i]
         out.append("interface " + IFNAME[i])
@@ -63,6 +81,8 @@ def render(cfg, dev):
             out.append(" ip access-group %s in" % f["in"])
         if f["out"]:
             out.append(" ip access-group %s out" % f["out"])
+        if cfg.get("ifcm", {}).get(i):
+            out.append(" crypto map " + cfg["ifcm"][i])
         if dev:
             out.append("!")
     for r in sorted(cfg["routes"], key=lambda r: (r["vrf"], r["dst"], r["gw"])):
@@ -155,6 +175,15 @@ def parse_cmd(line):
         return {"ev": "AceDelete" if no else "SeqAppend", "ace": parse_ace(tok)}
     if tok[0] == "interface" and not no:
         return {"ev": "IntfEnter", "i": RIFNAME[tok[1]]}
+    if tok[:2] == ["crypto", "map"] and len(tok) == 5 and tok[4] == "ipsec-isakmp":
+        k = cm_key(tok[2], int(tok[3]))
+        return {"ev": "CmDelete", "k": k} if no else {"ev": "CmEnter", "k": k, "name": tok[2], "seq": int(tok[3])}
+    if tok[:2] == ["crypto", "map"] and len(tok) == 3:
+        return {"ev": "IntfCm", "name": tok[2], "no": no}
+    if tok[:2] == ["set", "peer"] and len(tok) == 3:
+        return {"ev": "CmPeer", "p": RPEER[tok[2]], "no": no}
+    if tok[:3] == ["set", "ip", "access-group"] and len(tok) == 5:
+        return {"ev": "CmFilter", "n": tok[3], "dir": tok[4], "no": no}
     if tok[:2] == ["ip", "access-group"]:
         return {"ev": "IntfUnbind" if no else "IntfBind", "n": tok[2], "dir": tok[3]}
     if tok[:2] == ["ip", "route"]:
@@ -191,15 +220,20 @@ class Replica:
         self.acls = {n: [{"n": 10 * (i + 1), "ace": a} for i, a in enumerate(l)] for n, l in c["acls"].items()}
         self.intfs = c["intfs"]
         self.routes = c["routes"]
+        self.cmaps = c.get("cmaps", {})
+        self.ifcm = {i: c.get("ifcm", {}).get(i, "") for i in self.intfs}
         self.xe = c.get("xe", False)
         self.mode = ("", "")
 
     def state(self):
         return {"acls": {n: [copy.deepcopy(e["ace"]) for e in l] for n, l in self.acls.items()},
-                "intfs": copy.deepcopy(self.intfs), "routes": copy.deepcopy(self.routes), "xe": self.xe}
+                "intfs": copy.deepcopy(self.intfs), "routes": copy.deepcopy(self.routes), "xe": self.xe,
+                "cmaps": {k: dict(e, peers=sorted(e["peers"])) for k, e in self.cmaps.items()},
+                "ifcm": dict(self.ifcm)}
 
     def referenced(self, n):
-        return any(f["in"] == n or f["out"] == n for f in self.intfs.values())
+        return any(f["in"] == n or f["out"] == n for f in self.intfs.values()) or \
+            any(e["fin"] == n or e["fout"] == n for e in self.cmaps.values())
 
     def apply(self, e):
         ev = e["ev"]
@@ -248,6 +282,40 @@ class Replica:
                     f[e["dir"]] = e["n"]
             elif f[e["dir"]] == e["n"]:
                 f[e["dir"]] = ""
+        elif ev == "CmEnter":
+            self.cmaps.setdefault(e["k"], {"name": e["name"], "seq": e["seq"], "peers": [], "fin": "", "fout": ""})
+            self.mode = ("cm", e["k"])
+        elif ev == "CmDelete":
+            self.mode = ("", "")
+            self.cmaps.pop(e["k"], None)
+        elif ev == "CmPeer":
+            if self.mode[0] != "cm":
+                return
+            c = self.cmaps[self.mode[1]]
+            if e["no"]:
+                if e["p"] in c["peers"]:
+                    c["peers"].remove(e["p"])
+            elif e["p"] not in c["peers"]:
+                c["peers"].append(e["p"])
+        elif ev == "CmFilter":
+            if self.mode[0] != "cm":
+                return
+            c = self.cmaps[self.mode[1]]
+            f = "fin" if e["dir"] == "in" else "fout"
+            if e["no"]:
+                if c[f] == e["n"]:
+                    c[f] = ""
+            elif e["n"] in self.acls:
+                c[f] = e["n"]
+        elif ev == "IntfCm":
+            if self.mode[0] != "if":
+                return
+            i = self.mode[1]
+            if e["no"]:
+                if self.ifcm[i] == e["name"]:
+                    self.ifcm[i] = ""
+            elif any(c["name"] == e["name"] for c in self.cmaps.values()):
+                self.ifcm[i] = e["name"]
         elif ev == "RouteAdd":
             self.mode = ("", "")
             if e["r"] not in self.routes:
